@@ -44,10 +44,22 @@ PROPS: dict[str, dict] = {
         "explanation": "hash/eq obligations on every dataclass reachable from Relation; frame obligation for every mutating statement of the library; no ambient-state imports",
     },
     "C10": {
-        "modules": ["iteration"],
+        "modules": ["processor"],
         "extra": [_c10_extra],
-        "assumptions": [],
-        "explanation": "attach_payload contracts (write-once, rejected attach changes nothing, frame) + AST scan: no other payload write in the library",
+        "assumptions": ["the user's Processor.transfer/materialize hooks return a payload holding the rows of their source (assumed contract; their preconditions are proved at the call sites)",
+                        "Engine.get_join_identity_payload/get_doomed_payload return payloads (true of the sql and iteration engines; the base-class default None is out of scope)",
+                        "spec lemma: readiness of a tree is monotone in the payload heap (induction on the tree, not machine-checked)"],
+        "explanation": "attach_payload contracts (write-once, rejected attach changes nothing, frame) + AST scan: no other payload write in the library; execute and _process_recursive never replace a payload",
+    },
+    "C07": {
+        "modules": ["processor"],
+        "assumptions": ["the user's Processor.transfer/materialize hooks return a payload holding the rows of their source (assumed contract; their preconditions are proved at the call sites)",
+                        "Engine.get_join_identity_payload/get_doomed_payload return payloads (true of the sql and iteration engines; the base-class default None is out of scope)",
+                        "sql.Select.reapply keeps rows/columns/engine/readiness (assumed; subject of C17)",
+                        "spec lemma: readiness of a tree is monotone in the payload heap (induction on the tree, not machine-checked)",
+                        "allocation stamps: objects returned by a call were allocated before it returned; leaves always carry payloads; payload cells of unallocated objects are empty",
+                        "executing the processed tree in its final engine yields rows(result): iteration engine C01, SQL engine C02 (not claimed)"],
+        "explanation": "Processor._process_recursive proved path by path (77 paths, recursion by contract, payload heap as ghost state): same rows/columns/engine, result evaluable by its engine alone, hooks only on self-contained non-trivial sources, payloads never replaced, transfers never gain payloads",
     },
     "C06": {
         "modules": ["c20"],
@@ -189,7 +201,16 @@ PROPS["C01"].update(
 PROPS["C10"].update(
     level_text="MarkerRelation.attach_payload (write-once, frame: only this marker's cell, rejected attach changes nothing) and BaseRelation.attach_payload (always TypeError) are proved; an AST scan proves the only payload write in the library is that statement; "
                "iteration.Engine.execute is proved to return a cached payload without re-evaluation, never to replace a payload, to touch payload cells of this tree only and to leave an executed materialization with a payload.",
-    level_note=_COMMON_NOTE + "Processor._process_recursive (the other payload writer through attach_payload) is not yet under contract: its 'at most once' clause is the subject of C07.",
+    level_note=_COMMON_NOTE + "Processor hooks and engine payload factories enter as assumed contracts. Known finding F13: a materialization behind a plain marker (every SQL materialization wraps a Select) never receives its payload, so its upstream is evaluated again by every process() call. "
+               "One frame obligation of _process_recursive is covered by the bounded stand-in S-C07-frame-rebuilt-materialization (labelled bounded).",
 )
-CLAIMED = {"C01", "C03", "C04", "C05", "C06", "C09", "C10", "C12", "C13", "C14", "C15", "C16", "C19", "C20"}
+PROPS["C07"].update(
+    level_text="Processor._process_recursive is proved against a contract over the payload heap (ghost state): the returned tree has the rows, columns and engine of the input; it can be evaluated by its engine alone (every transfer/materialization in it carries a payload or is statically trivial); "
+               "the transfer/materialize hooks are invoked only on sources with that property and never for a statically empty or join-identity relation (hook preconditions are obligations at the call sites); no existing payload is replaced, engine-changing transfers of the input never gain one, "
+               "only materializations and same-engine markers do, nodes above the processed one are untouched. MarkerRelation.reapply/attach_payload, Engine.materialize, UnaryOperation/BinaryOperation.apply carry the readiness clauses the proof uses.",
+    level_note=_COMMON_NOTE + _LAWS + "Assumed: the hooks' postconditions (payload == rows of the source), engine payload factories return payloads, sql.Select.reapply (C17), monotonicity of readiness in the payload heap (spec lemma by induction, not machine-checked), executing the result gives rows(result) (C01; SQL side C02 not claimed). "
+               "Bounded, not proved: the frame clause when a re-created materialization resolves to an existing node (stand-in S-C07-frame-rebuilt-materialization, replay/bounded_processor.py, 30000 random trees). Known finding F13 (persisted flag through plain markers). "
+               "'Same-engine transfers' (destination == target engine; never built by Engine.transfer) are exempt from the never-gain clause.",
+)
+CLAIMED = {"C01", "C03", "C04", "C05", "C06", "C07", "C09", "C10", "C12", "C13", "C14", "C15", "C16", "C19", "C20"}
 NOT_CLAIMED: dict[str, str] = {}
